@@ -34,7 +34,10 @@
 #include "download/download_wrapper.h"
 #include "protocol/extensions.h"
 #include "protocol/peer_connection_base.h"
+#include "torrent/data/file.h"
 #include "torrent/data/file_list.h"
+#include "download/delegator.h"
+#include "data/transfer_list.h"
 #include "torrent/download_info.h"
 #include "torrent/exceptions.h"
 #include "torrent/peer/connection_list.h"
@@ -185,7 +188,7 @@ static std::string run_case(Session& S, const std::string& line) {
                     " done=" + (dl.file_list()->is_done() ? "1" : "0") + " have=" + std::to_string(dl.file_list()->completed_chunks());
     std::string fmd = "-";
     if (dl.file_list()->is_done() && dl.file_list()->size_files() == 1) {
-      std::string path = (*dl.file_list()->begin())->frozen_path();
+      std::string path = (*dl.file_list()->begin())->frozen_path().str();
       std::ifstream f(path, std::ios::binary);
       std::string data((std::istreambuf_iterator<char>(f)), std::istreambuf_iterator<char>());
       fmd = std::to_string(data.size()) + ":" + md5hex(data);
